@@ -124,8 +124,19 @@ KIND_PRED = {
 
 
 def nav_shape(w, deck, a, kind="any"):
-    sl = nav_slide(w, deck, a)
-    cands = [s for s in walk_shapes(sl.shapes) if KIND_PRED[kind](s)]
+    """Shape of `kind`: on the selected slide if it has one, else on the next slide (wrapping) that has."""
+    sls = slides_of(deck)
+    if not sls:
+        raise Skip("no slides")
+    i0 = a.get("slide", 0) % len(sls)
+    sl = cands = None
+    for k in range(len(sls)):
+        sl = sls[(i0 + k) % len(sls)]
+        cands = [s for s in walk_shapes(sl.shapes) if KIND_PRED[kind](s)]
+        if cands:
+            break
+    if not cands:
+        raise Skip("no %s shape" % kind)
     sh = pick(cands, a.get("shape", 0))
     if a.get("held"):
         key = ("shape", a.get("actor", 0), sl.slide_id, sh.shape_id, type(sh).__name__)
@@ -145,11 +156,32 @@ def nav_paragraph(w, deck, a, create=False):
 
 
 def nav_run(w, deck, a):
-    sl, sh, tf, p = nav_paragraph(w, deck, a)
-    rs = p.runs
-    if not rs:
-        raise Skip("no runs")
-    return sl, sh, tf, p, pick(rs, a.get("run", 0))
+    """A run: prefer the selected paragraph; fall back to any paragraph of the frame that has runs."""
+    sl, sh = nav_shape(w, deck, a, "text")
+    tf = sh.text_frame
+    ps = list(tf.paragraphs)
+    if not ps:
+        raise Skip("no paragraphs")
+    i0 = a.get("para", 0) % len(ps)
+    for k in range(len(ps)):
+        p = ps[(i0 + k) % len(ps)]
+        rs = p.runs
+        if rs:
+            return sl, sh, tf, p, pick(rs, a.get("run", 0))
+    raise Skip("no runs")
+
+
+def nav_placeholder(w, deck, a, method):
+    sls = slides_of(deck)
+    if not sls:
+        raise Skip("no slides")
+    i0 = a.get("slide", 0) % len(sls)
+    for k in range(len(sls)):
+        sl = sls[(i0 + k) % len(sls)]
+        phs = [p for p in sl.placeholders if hasattr(p, method)]
+        if phs:
+            return sl, pick(phs, a.get("shape", 0))
+    raise Skip("no placeholder with %s" % method)
 
 
 def emu(r, lo=0, hi=9144000):
@@ -244,7 +276,7 @@ def _remove_layout(w, deck, a):
 
 
 @op("slide_size", "package")
-@gen(lambda r: {"w": emu(r, 914400, 20000000), "h": emu(r, 914400, 20000000)})
+@gen(lambda r: {"w": r.choice([914400, 51206399, r.randint(914400, 20000000)]), "h": r.choice([914400, 51206399, r.randint(914400, 20000000)])})
 def _slide_size(w, deck, a):
     deck.prs.slide_width = a["w"]
     deck.prs.slide_height = a["h"]
@@ -542,9 +574,7 @@ def _add_ole(w, deck, a):
 @op("ph_insert_picture", "media", creates=True)
 @gen(lambda r: dict(g_sh(r), img=gens.gen_image_recipe(r), src=g_src(r)))
 def _ph_insert_picture(w, deck, a):
-    sl = nav_slide(w, deck, a)
-    phs = [p for p in sl.placeholders if hasattr(p, "insert_picture")]
-    ph = pick(phs, a["shape"])
+    sl, ph = nav_placeholder(w, deck, a, "insert_picture")
     f, tmp = _source_arg(w, gens.image_bytes(a["img"]), a, fname="ph.img")
     try:
         ph.insert_picture(f)
@@ -557,18 +587,14 @@ def _ph_insert_picture(w, deck, a):
 @gen(lambda r: dict(g_sh(r), **g_chart(r)))
 def _ph_insert_chart(w, deck, a):
     from pptx.enum.chart import XL_CHART_TYPE
-    sl = nav_slide(w, deck, a)
-    phs = [p for p in sl.placeholders if hasattr(p, "insert_chart")]
-    ph = pick(phs, a["shape"])
+    sl, ph = nav_placeholder(w, deck, a, "insert_chart")
     ph.insert_chart(getattr(XL_CHART_TYPE, a["type"]), gens.build_chart_data(a["data"]))
 
 
 @op("ph_insert_table", "tables")
 @gen(lambda r: dict(g_sh(r), rows=r.randint(1, 4), cols=r.randint(1, 4)))
 def _ph_insert_table(w, deck, a):
-    sl = nav_slide(w, deck, a)
-    phs = [p for p in sl.placeholders if hasattr(p, "insert_table")]
-    ph = pick(phs, a["shape"])
+    sl, ph = nav_placeholder(w, deck, a, "insert_table")
     ph.insert_table(a["rows"], a["cols"])
 
 
@@ -865,7 +891,7 @@ def _shape_fill(w, deck, a):
     apply_fill(sh.fill, a)
 
 
-@op("shape_line", "dml", weight=2.0)
+@op("shape_line", "dml", weight=2.0, expects=(ValueError,))
 @gen(lambda r: dict(g_sh(r), what=r.choice(["width", "dash", "color", "fill"]), wv=r.choice([0, 12700, 25400, 9525, 20116800]),
                     dash=r.choice([None, "DASH", "ROUND_DOT", "SOLID", "LONG_DASH_DOT", "SQUARE_DOT"]), **g_fill(r)))
 def _shape_line(w, deck, a):
